@@ -169,11 +169,13 @@ def run_property(pid, tier, seed, jobs, only=None, verbose=True):
         for s in r["samples"]:
             if len(a["samples"]) < 4:
                 a["samples"].append(s)
-        a["cex"].extend(r["cex"])
+        for f in r["cex"]:      # keep a few candidates per failure class
+            if sum(1 for c in a["cex"] if c["key"] == f["key"]) < 4:
+                a["cex"].append(f)
         if r["error"]:
             a["errors"].append(r["error"])
         rest = r["rest"]
-        if len(a["cex"]) >= 12:
+        if len(a["cex"]) >= 40:
             rest = []           # enough counterexamples for this harness
             a["truncated"] = True
         if time.time() > deadline[name]:
